@@ -21,7 +21,8 @@ class Rec:
         self.pruned = dec(res.get("pruned")) if self.ok and res.get("pruned") is not None else None
 
     def inp(self):
-        return dict(game=enc(self.game), game_repr=repr(self.game), prune=self.prune, op=self.op, style=self.meta.get("style"))
+        return dict(game=enc(self.game), game_repr=repr(self.game), prune=self.prune, op=self.op, style=self.meta.get("style"),
+                    share=bool(self.meta.get("share")), full=bool(self.meta.get("full")))
 
     def describe(self):
         if self.ok:
@@ -73,7 +74,7 @@ def run_games(ctx, games, modes=(True, False), limit=10, tag="s"):
     for g, m in games:
         for prune in modes:
             if m["style"] in gen_games.TERMINATING or m.get("full"):
-                jobs.append(dict(op="solve", game=enc(g), prune=prune))
+                jobs.append(dict(op="solve", game=enc(g), prune=prune, share=bool(m.get("share"))))
                 info.append((g, m, prune, "solve"))
             else:
                 jobs.append(dict(op="reach", game=enc(g), prune=prune))
